@@ -75,18 +75,23 @@ package reftable
 //@   nopanic
 //@   modifies nothing
 //@   assumes[model-restart-key] (err == nil) == rkeyOK(buf, off) && (err == nil ==> key == rkeyAt(buf, off))
+//@   ensures[reads-a-full-key] {C02, C01} err == nil ==> off < len(buf) && buf[off] == 0
+//@   ensures[length-of-the-full-key] {C02, C01} err == nil && len(buf) < 4294967296 && vlen(buf[off+1:]) >= 1 ==> len(key) == vval(buf[off+1:]) / 8
+//@   ensures[bytes-of-the-full-key] {C02, C01} err == nil && len(buf) < 4294967296 && vlen(buf[off+1:]) >= 1 ==> (forall t int :: 0 <= t && t < len(key) ==> key[t] == buf[off + 1 + vlen(buf[off+1:]) + t])
 
 //@ func (*RefRecord).decode
 //@   props C18 C19
 //@   requires hashSize == 20 || hashSize == 32
 //@   nopanic
 //@   modifies r.ALLFIELDS
+//@   ensures[keeps-the-key-it-is-given] {C01, C02} ok ==> r.RefName == key
 //@   ensures ok ==> 0 < n && n <= len(buf)
 
 //@ func (*indexRecord).decode
 //@   props C18 C19
 //@   nopanic
 //@   modifies r.ALLFIELDS
+//@   ensures[keeps-the-key-it-is-given] {C01, C02} ok ==> r.LastKey == key
 //@   ensures ok ==> 0 < n && n <= len(buf)
 
 //@ func (*objRecord).decode
@@ -450,6 +455,7 @@ package reftable
 //@   sets lastDelta = asptr(r, *RefRecord).UpdateIndex if result0 && istype(r, *RefRecord)
 //@   ensures result0 ==> result1 == nil && bi.nextOffset > old(bi.nextOffset) && old(bi.nextOffset) < len(bi.br.block)
 //@   ensures !result0 ==> bi.nextOffset == old(bi.nextOffset)
+//@   ensures[remembers-the-key-it-yielded] {C02, C01} result0 ==> bi.lastKey == keyOf(r)
 //@   assumes[model-yield] blkModel(bi.br) && recMatches(r, bi.br.block[bi.br.headerOff]) && scanAt(bi.br, old(bi.nextOffset), old(bi.lastKey), bpos(bi.br, old(bi.nextOffset))) && bpos(bi.br, old(bi.nextOffset)) < bcnt(bi.br) ==> result0 && keyOf(r) == bkey(bi.br, bpos(bi.br, old(bi.nextOffset))) && bi.lastKey == keyOf(r) && bi.nextOffset == boff(bi.br, bpos(bi.br, old(bi.nextOffset)) + 1) && (istype(r, *indexRecord) ==> asptr(r, *indexRecord).Offset == tChild(bTab(bi.br), bOff(bi.br), bpos(bi.br, old(bi.nextOffset))))
 //@   assumes[model-end] blkModel(bi.br) && old(bi.nextOffset) == boff(bi.br, bcnt(bi.br)) ==> !result0 && result1 == nil
 
